@@ -21,7 +21,7 @@ type loopInfo struct {
 // loopsOver finds range / index loops in body whose iterated collection satisfies isSrc.
 func loopsOver(info *types.Info, body ast.Node, isSrc func(src ast.Expr) bool) []loopInfo {
 	var out []loopInfo
-	ast.Inspect(body, func(nd ast.Node) bool {
+	inspect(body, func(nd ast.Node) bool {
 		switch s := nd.(type) {
 		case *ast.RangeStmt:
 			src, dir := rangeSource(info, s.X)
@@ -52,7 +52,7 @@ func loopsOver(info *types.Info, body ast.Node, isSrc func(src ast.Expr) bool) [
 				return true
 			}
 			found := false
-			ast.Inspect(s.Body, func(m ast.Node) bool {
+			inspect(s.Body, func(m ast.Node) bool {
 				if ix, ok := m.(*ast.IndexExpr); ok && prog.IdentObj(info, ix.Index) == iv {
 					if isSrc(resolveLocal(info, body, ix.X)) {
 						found = true
@@ -146,7 +146,7 @@ func init() {
 			// level-0 expression: ll.At(0)... or ll.levels[0]...
 			isL0 := func(src ast.Expr) bool {
 				found := false
-				ast.Inspect(src, func(nd ast.Node) bool {
+				inspect(src, func(nd ast.Node) bool {
 					switch x := nd.(type) {
 					case *ast.CallExpr:
 						if r.P.CalleeFunc(info, x) == at && len(x.Args) == 1 {
@@ -255,7 +255,7 @@ func init() {
 			swaps := 0
 			for _, lit := range allLitsIn(f.Decl.Body) {
 				hasSwap := false
-				ast.Inspect(lit.Body, func(nd ast.Node) bool {
+				inspect(lit.Body, func(nd ast.Node) bool {
 					if inner, ok := nd.(*ast.FuncLit); ok && inner != lit {
 						return false
 					}
@@ -352,7 +352,7 @@ func init() {
 				r.Error("undecided: expected the flush and the compaction task to swap db.sstables (found %d swaps)", swaps)
 			}
 			// Truncate's argument is the LatestSeqNum of db.sstables (after the swap)
-			ast.Inspect(f.Decl.Body, func(nd ast.Node) bool {
+			inspect(f.Decl.Body, func(nd ast.Node) bool {
 				call, ok := nd.(*ast.CallExpr)
 				if !ok || r.P.CalleeFunc(info, call) != trunc {
 					return true
@@ -422,7 +422,7 @@ func init() {
 			merge := r.P.FuncObj("dkv/mergesort", "Merge")
 			info := me.Pkg.TypesInfo
 			okArgs := false
-			ast.Inspect(me.Decl.Body, func(nd ast.Node) bool {
+			inspect(me.Decl.Body, func(nd ast.Node) bool {
 				call, ok := nd.(*ast.CallExpr)
 				if !ok || r.P.CalleeFunc(info, call) != merge || len(call.Args) != 3 {
 					return true
@@ -495,7 +495,7 @@ func init() {
 			rpc := r.P.FuncObj("dkv/sst", "(*Table).RangePrefixCompare")
 			rcp := r.P.FuncObj("dkv/sst", "(*Table).RangeContainsPrefix")
 			okSearch, okWalk := false, false
-			ast.Inspect(f.Decl.Body, func(nd ast.Node) bool {
+			inspect(f.Decl.Body, func(nd ast.Node) bool {
 				switch x := nd.(type) {
 				case *ast.CallExpr:
 					if c, ok := isCallToNamed(info, x, "slices", "BinarySearchFunc"); ok && len(c.Args) == 3 {
@@ -550,7 +550,7 @@ func (r *Run) checkKeepsHighestSeq(f *prog.FuncInfo, l loopInfo) {
 	var best types.Object
 	var guard *ast.IfStmt
 	var cand ast.Expr
-	ast.Inspect(l.Body, func(nd ast.Node) bool {
+	inspect(l.Body, func(nd ast.Node) bool {
 		is, ok := nd.(*ast.IfStmt)
 		if !ok {
 			return true
@@ -580,7 +580,7 @@ func (r *Run) checkKeepsHighestSeq(f *prog.FuncInfo, l loopInfo) {
 		"no result yet || candidate.SeqNum() > best.SeqNum()")
 	// the running result is what the function returns after the loop
 	returned := false
-	ast.Inspect(f.Decl.Body, func(nd ast.Node) bool {
+	inspect(f.Decl.Body, func(nd ast.Node) bool {
 		if ret, ok := nd.(*ast.ReturnStmt); ok && ret.Pos() > l.Stmt.End() && len(ret.Results) > 0 && prog.IdentObj(info, ret.Results[0]) == best {
 			returned = true
 		}
@@ -594,7 +594,7 @@ func (r *Run) checkKeepsHighestSeq(f *prog.FuncInfo, l loopInfo) {
 // exprCallsShallow is exprCalls that does not descend into nested function literals.
 func (r *Run) exprCallsShallow(info *types.Info, body ast.Node, fn *types.Func) bool {
 	found := false
-	ast.Inspect(body, func(nd ast.Node) bool {
+	inspect(body, func(nd ast.Node) bool {
 		if lit, ok := nd.(*ast.FuncLit); ok && ast.Node(lit) != body {
 			return false
 		}
@@ -611,7 +611,7 @@ func (r *Run) exprCallsShallow(info *types.Info, body ast.Node, fn *types.Func) 
 func (r *Run) checkAppendsNewest(f *prog.FuncInfo, field *types.Var) {
 	info := f.Pkg.TypesInfo
 	ok := false
-	ast.Inspect(f.Decl.Body, func(nd ast.Node) bool {
+	inspect(f.Decl.Body, func(nd ast.Node) bool {
 		as, isAs := nd.(*ast.AssignStmt)
 		if !isAs || len(as.Lhs) != 1 || len(as.Rhs) != 1 || prog.SelField(info, as.Lhs[0]) != field {
 			return true
@@ -643,7 +643,7 @@ func (r *Run) checkSeqBump(f *prog.FuncInfo, field *types.Var) {
 	info := f.Pkg.TypesInfo
 	r.Site(f.Decl.Pos(), f.Name()+": sequence number bump")
 	var next types.Object
-	ast.Inspect(f.Decl.Body, func(nd ast.Node) bool {
+	inspect(f.Decl.Body, func(nd ast.Node) bool {
 		as, ok := nd.(*ast.AssignStmt)
 		if !ok || len(as.Lhs) != 1 || len(as.Rhs) != 1 {
 			return true
@@ -658,7 +658,7 @@ func (r *Run) checkSeqBump(f *prog.FuncInfo, field *types.Var) {
 		return true
 	})
 	incFirst := false
-	ast.Inspect(f.Decl.Body, func(nd ast.Node) bool {
+	inspect(f.Decl.Body, func(nd ast.Node) bool {
 		if inc, ok := nd.(*ast.IncDecStmt); ok && inc.Tok == token.INC && prog.SelField(info, inc.X) == field {
 			incFirst = true
 		}
@@ -671,7 +671,7 @@ func (r *Run) checkSeqBump(f *prog.FuncInfo, field *types.Var) {
 	// every call that takes a uint64 named seqNum-like last parameter must receive it
 	stored := incFirst
 	nUses := 0
-	ast.Inspect(f.Decl.Body, func(nd ast.Node) bool {
+	inspect(f.Decl.Body, func(nd ast.Node) bool {
 		switch x := nd.(type) {
 		case *ast.AssignStmt:
 			for i, l := range x.Lhs {
@@ -713,7 +713,7 @@ func (r *Run) checkSeqBump(f *prog.FuncInfo, field *types.Var) {
 func (r *Run) checkBinarySearch(f *prog.FuncInfo) {
 	info := f.Pkg.TypesInfo
 	var loop *ast.ForStmt
-	ast.Inspect(f.Decl.Body, func(nd ast.Node) bool {
+	inspect(f.Decl.Body, func(nd ast.Node) bool {
 		if fs, ok := nd.(*ast.ForStmt); ok && loop == nil {
 			loop = fs
 		}
@@ -746,10 +746,10 @@ func (r *Run) checkBinarySearch(f *prog.FuncInfo) {
 	halfOpen := op == token.LSS
 	// mid variable: defined in the loop body from low and high
 	var midObj types.Object
-	ast.Inspect(loop.Body, func(nd ast.Node) bool {
+	inspect(loop.Body, func(nd ast.Node) bool {
 		if as, ok := nd.(*ast.AssignStmt); ok && as.Tok == token.DEFINE && len(as.Lhs) == 1 && midObj == nil {
 			mentionsLow, mentionsHigh := false, false
-			ast.Inspect(as.Rhs[0], func(m ast.Node) bool {
+			inspect(as.Rhs[0], func(m ast.Node) bool {
 				if id, ok := m.(*ast.Ident); ok {
 					if info.Uses[id] == lowObj {
 						mentionsLow = true
@@ -789,7 +789,7 @@ func (r *Run) checkBinarySearch(f *prog.FuncInfo) {
 		return "?"
 	}
 	var lowUpd, highUpd string
-	ast.Inspect(loop.Body, func(nd ast.Node) bool {
+	inspect(loop.Body, func(nd ast.Node) bool {
 		if as, ok := nd.(*ast.AssignStmt); ok && as.Tok == token.ASSIGN && len(as.Lhs) == 1 {
 			switch prog.IdentObj(info, as.Lhs[0]) {
 			case lowObj:
@@ -802,7 +802,7 @@ func (r *Run) checkBinarySearch(f *prog.FuncInfo) {
 	})
 	// initial high: len(x) (half-open) or len(x)-1 (closed)
 	highInit := "?"
-	ast.Inspect(f.Decl.Body, func(nd ast.Node) bool {
+	inspect(f.Decl.Body, func(nd ast.Node) bool {
 		as, ok := nd.(*ast.AssignStmt)
 		if !ok || as.Tok != token.DEFINE || nd.Pos() >= loop.Pos() {
 			return true
@@ -931,7 +931,7 @@ func (r *Run) checkSearchPolarity(f *prog.FuncInfo, loop *ast.ForStmt, lowObj, h
 	}
 	touches := func(n ast.Node) bool {
 		found := false
-		ast.Inspect(n, func(m ast.Node) bool {
+		inspect(n, func(m ast.Node) bool {
 			switch x := m.(type) {
 			case *ast.AssignStmt:
 				for _, l := range x.Lhs {
